@@ -88,6 +88,19 @@ def _first_cfg(fn, stmt):
     return best
 
 
+def _names(fn, cond):
+    """Struct-member and callee names a condition depends on, with single-definition locals replaced by
+    what they were computed from (so renaming a local does not change the answer)."""
+    out = set()
+    for t in subtrees(Canon(fn)(cond)):
+        if isinstance(t, tuple) and t:
+            if t[0] == "member":
+                out.add(t[2])
+            elif t[0] == "func":
+                out.add(t[1])
+    return out
+
+
 def _guards(fn, pred):
     """IfStmts with an error exit whose condition satisfies pred(cond)."""
     out = []
@@ -235,20 +248,25 @@ def run(ctx):
         ctx.inconclusive("R3.extent", "mmap-available-body|%s:mmap_available" % PR, P.where(ma.body), "abstract execution", str(ex))
     # zero-copy hand-out holds its values; num_values tested for negativity
     ln = P.fn("load_next_page_mmap", PR)
-    zc = _guards(ln, lambda c: "num_values" in src(c) and "compressed_page_size" in src(c) and "value_size" in src(c))
+    zc = _guards(ln, lambda c: {"num_values", "compressed_page_size"} <= _names(ln, c) and
+                 ({"get_value_size", "type_length"} & _names(ln, c) or "value_size" in src(c)))
     view = [a for a in ln.body.walk() if is_assign(a) and a.c[0].strip().k == "MemberExpr"
             and a.c[0].strip().name == "decoded_values" and a.c[1].strip_casts().k == "DeclRefExpr"]
     ctx.ob("R3.extent", "zero-copy-extent|%s:load_next_page_mmap" % PR, P.where(ln.body),
            "a zero-copy page is handed out only if num_values * value_size fits its compressed_page_size",
            bool(zc) and bool(view) and all(ln.cfg.node_dominates(_first_cfg(ln, zc[0]), v) for v in view))
-    neg = _guards(ln, lambda c: "num_values < 0" in src(c))
+    neg = _guards(ln, lambda c: any(
+        lf.k == "BinaryOperator" and lf.op == "<" and lf.c[1].cv == 0 and "num_values" in _names(ln, lf.c[0])
+        for lf in c.walk()))
     ms = ln.calls("memset")
     ctx.ob("R3.count", "num-values-sign|%s:load_next_page_mmap" % PR, P.where(ln.body),
            "a negative num_values is rejected before it sizes a memset/allocation", bool(neg) and
            all(ln.cfg.node_dominates(_first_cfg(ln, neg[0]), m) for m in ms))
     rd = P.fn("carquet_read_dictionary_page", PR)
-    g = _guards(rd, lambda c: "page_size" in src(c) and "num_values" in src(c))
-    cp = [c for c in rd.calls("memcpy") if "dict_size" in src(c.args()[2])]
+    psz = [p_["d"] for p_ in rd.params if "size" in p_["n"]]
+    g = _guards(rd, lambda c: "num_values" in _names(rd, c) and any(
+        x.k == "DeclRefExpr" and x.get("dk") == "param" and x.get("d") in psz for x in c.walk()))
+    cp = [c for c in rd.calls("memcpy") if "num_values" in _names(rd, c.args()[2])]
     ctx.ob("R3.extent", "dictionary-extent|%s:carquet_read_dictionary_page" % PR, P.where(rd.body),
            "the fixed-width dictionary copy is dominated by a comparison of num_values with page_size / value_size",
            bool(g) and bool(cp) and all(rd.cfg.node_dominates(_first_cfg(rd, g[0]), c) for c in cp))
